@@ -458,6 +458,64 @@ fn main() {
     if with_bp.is_err() {
         run.fail("solver-sampling-aborts", "sections that sample trees through Blueprint::tree with the trained profile", "no abort", "panic inside the real code (run with VERIF_LOUD=1 to see it)");
     }
+    // ---- 3c. consecutive epochs are independent draws: at many different chance information sets with
+    // 40 branches each, the branch taken at epoch e and at epoch e+1 coincides about once in 40 —
+    // in particular for the first epochs (0,1), (1,2) of a fresh profile
+    {
+        let tree = bp.verif_tree();
+        let nodes = tree.all();
+        let mut seenb = std::collections::BTreeSet::new();
+        let chance: Vec<&Node> = nodes.iter().filter(|n| n.player() == Player::chance() && seenb.insert(key(n.bucket()))).collect();
+        let n = 40usize;
+        let mut prof = Profile::default();
+        let pairs = [(0usize, 1usize), (1, 2), (2, 3), (7, 8), (390, 391), (1000, 1001)];
+        let mut agree = vec![0u64; pairs.len()];
+        let mut used = 0u64;
+        for node in chance.iter().take(if a.thorough() { 400 } else { 120 }) {
+            let game = *node.data().game();
+            let mut boards: Vec<u64> = vec![];
+            let mut guard = 0;
+            while boards.len() < n && guard < 4000 {
+                guard += 1;
+                let mut deck = game.deck();
+                let cards = deck.deal(game.street());
+                let g = game.apply(Action::Draw(cards));
+                let bd = u64::from(robopoker::cards::hand::Hand::from(g.board()));
+                if !boards.contains(&bd) { boards.push(bd); }
+            }
+            if boards.len() < n { continue; }
+            let old = u64::from(robopoker::cards::hand::Hand::from(game.board()));
+            let mut pick = |prof: &mut Profile, e: usize| -> Option<usize> {
+                prof.verif_set_epochs(e);
+                let choices: Vec<Branch> = boards.iter().map(|bd| {
+                    let g = game.apply(Action::Draw(robopoker::cards::hand::Hand::from(bd & !old)));
+                    Branch(Data::from((g, enc.abstraction(&g))), Edge::Draw, node.index())
+                }).collect();
+                catch(std::panic::AssertUnwindSafe(|| {
+                    let chosen = prof.explore_any(choices, node);
+                    let bd = u64::from(robopoker::cards::hand::Hand::from(chosen[0].0.game().board()));
+                    boards.iter().position(|b| *b == bd)
+                })).flatten()
+            };
+            used += 1;
+            for (k, (e0, e1)) in pairs.iter().enumerate() {
+                let x = pick(&mut prof, *e0);
+                let y = pick(&mut prof, *e1);
+                if x.is_some() && x == y { agree[k] += 1; }
+            }
+            run.evaluations += 2 * pairs.len() as u64;
+        }
+        run.spec_checked += 1;
+        let mean = used as f64 / n as f64;
+        let sigma = (used as f64 * (1.0 / n as f64) * (1.0 - 1.0 / n as f64)).sqrt().max(1.0);
+        for (k, (e0, e1)) in pairs.iter().enumerate() {
+            run.count(&format!("consecutive-epoch agreement ({e0},{e1}) = {} of {used}", agree[k]));
+            if used >= 30 && agree[k] as f64 > mean + 6.0 * sigma + 2.0 {
+                run.fail("epochs-not-independent-draws", &format!("explore_any at {used} different chance information sets with {n} branches, epochs {e0} and {e1} of a fresh profile"),
+                    &format!("the same branch at both epochs about {mean:.1} times"), &format!("{} times", agree[k]));
+            }
+        }
+    }
     // ---- 5. another run of the program must make the same choices (no per-process random keys)
     {
         quiet_panics();
